@@ -135,12 +135,33 @@ func (c *Cluster) execScan(sc *Conn, req *wire.Request, m *pb.ScanRequest) *Repl
 	c.MetaScans++
 	e.Method = "MetaScan"
 	c.logExecLocked(Exec{Addr: e.Addr, Conn: e.Conn, CallID: e.CallID, Method: "MetaScanArrived", Region: e.Region, Row: e.Row})
-	for c.MetaHold && !c.stopped && sc.closedBy == "" && !sc.Pair.ClientClosed() {
-		c.cond.Wait()
-	}
-	if c.stopped {
+	if c.MetaHold {
+		// answer later, without blocking the connection's request loop (further requests
+		// must keep arriving - and being time-stamped - while this one is held)
+		c.wg.Add(1)
+		go func() {
+			defer c.wg.Done()
+			c.mu.Lock()
+			for c.MetaHold && !c.stopped && sc.closedBy == "" && !sc.Pair.ClientClosed() {
+				c.cond.Wait()
+			}
+			gone := c.stopped || sc.closedBy != "" || sc.Pair.ClientClosed()
+			var rep *Reply
+			if !gone {
+				rep = c.metaReplyLocked(e, m)
+			}
+			c.mu.Unlock()
+			if rep != nil && !rep.NoReply && !rep.Reset {
+				c.respond(sc, e.CallID, rep)
+			}
+		}()
 		return &Reply{NoReply: true}
 	}
+	return c.metaReplyLocked(e, m)
+}
+
+// metaReplyLocked answers an (open) hbase:meta scan from the layout model.
+func (c *Cluster) metaReplyLocked(e Exec, m *pb.ScanRequest) *Reply {
 	if len(c.MetaErr) > 0 {
 		x := c.MetaErr[0]
 		c.MetaErr = c.MetaErr[1:]
